@@ -116,6 +116,15 @@ def run(ctx):
     add_group('two-programs-valid', [fbd, prog1, ('P', p2, [units.var(v2, 'v', 'i')], [('a', v2, [])])], None)
     add_group('two-programs-call-leak', [fbd, prog1, ('P', p2, [units.var(v2, 'v', 'i')], [('a', v2, []), ('c', inst, [], [], [])])], 'call-instance-declared-in-neighbour')
     add_group('two-programs-var-leak', [fbd, prog1, ('P', p2, [units.var(v2, 'v', 'i')], [('a', v2, [v1])])], 'undefined-var-declared-in-neighbour')
+    # two configurations: the constant global that a function block imports stands in one of them (which of the two
+    # comes first in the analysis follows the declaration / file order)
+    c1, c2, g1, g2, t1, t2, i1, i2, fx, fv = 950, 951, 952, 953, 954, 955, 956, 957, 958, 959
+    progd = ('P', p2, [units.var(v2, 'v', 'i')], [('a', v2, [])])
+    conf1 = ('C', c1, [units.var(g1, 'g', 'i', 1, False)], [t1], [(i1, t1, p2)])
+    conf2 = ('C', c2, [units.var(g2, 'g', 'i', 2, True)], [t2], [(i2, t2, p2)])
+    user = lambda const: ('F', fx, [units.var(fv, 'v', 'i'), units.var(g2, 'e', 'i', None, const)], [('a', fv, [g2])])
+    add_group('two-configurations-valid', [progd, conf1, conf2, user(True)], None)
+    add_group('two-configurations-external-not-const', [progd, conf1, conf2, user(False)], 'external-not-const')
     for _ in range(3 if ctx.quick() else 40):
         decls, ns = units.gen_valid(rng, size=rng.choice([1, 2]))
         add_group('random-valid', decls, None)
